@@ -36,6 +36,9 @@ def monitor(case, tr, raw):
     finished = False
     idle = {}        # queued fiber -> {thread: polls since it became runnable}
     owed = {}        # thread -> finished fiber it has just switched away from and must reclaim next
+    qthread = {}     # queued fiber -> kernel thread on whose run queue it was put
+    ycount = {}      # queued, runnable fiber -> yields of that thread's running fibers since it became runnable there
+    nfib = 0
     for (t, loc, kind, val) in tr:
         if loc == 910 and kind == 99 and val == 0:
             # an idle kernel thread polls (twice per scheduler-loop iteration in T2); a queued, runnable fiber must be
@@ -48,6 +51,16 @@ def monitor(case, tr, raw):
                         return "every kernel thread went idle (3 polls each) while runnable fiber %d stayed queued" % f
         if kind == -9:
             return "the runtime crashed (signal %d) under this schedule" % val
+        if kind == 19 and 400 <= loc < 400 + 20 * 64 and (loc - 400) % 20 == 8:
+            # a fiber_manager_yield on kernel thread t: every fiber that is queued on t's run queue and runnable (not
+            # still SAVING on its previous thread) must be handed out after a bounded number of them (C10)
+            for g, tq in qthread.items():
+                if tq == t and state.get(g) != 5:
+                    ycount[g] = ycount.get(g, 0) + 1
+                    if ycount[g] > 4 * max(nfib, 2) + 20:
+                        return ("runnable fiber %d has been sitting in the run queue of kernel thread %d for %d yields of "
+                                "that thread's running fibers without being handed out (%d fibers exist)" % (g, t, ycount[g], nfib))
+            continue
         if kind != 919 and 200 <= loc < 400:
             f = 1000 + (loc - 200)
             if f in destroyed:
@@ -78,16 +91,20 @@ def monitor(case, tr, raw):
         if loc == 910 and val == 3:
             finished = True
         elif loc == EV_CREATE_T:
+            nfib += 1
             ctx[val] = ('live', nthread_fibers)
             cur[nthread_fibers] = val
             nthread_fibers += 1
         elif loc == EV_CREATE:
+            nfib += 1
             ctx[val] = ('fresh',)
             pend[val] = 0
         elif loc == EV_SCHED:
             if val in destroyed:
                 return "reclaimed fiber %d scheduled" % val
             pend[val] = pend.get(val, 0) + 1
+            qthread[val] = t
+            ycount[val] = 0
             idle.pop(val, None)
             if pend[val] > 1:
                 return "fiber %d scheduled twice for one wake-up (queued twice)" % val
@@ -95,9 +112,14 @@ def monitor(case, tr, raw):
             if pend.get(val, 0) != 1:
                 return "run queue handed out fiber %d which is not queued exactly once (pending=%d)" % (val, pend.get(val, 0))
             pend[val] = 0
+            qthread.pop(val, None); ycount.pop(val, None)
             if t in handed:
                 return "thread %d took fiber %d from the queue but never ran %d" % (t, val, handed[t])
             handed[t] = val
+        elif loc == EV_STEAL:
+            if val in qthread:
+                qthread[val] = t          # the thief puts it at the front of its own run queue
+                ycount[val] = 0
         elif loc == EV_SW_OLD:
             sw_old[t] = val
         elif loc == EV_SW_NEW:
